@@ -133,6 +133,12 @@ def compare_case(case, mres):
             mc = I.model_cursor(mr)
             ir = isteps[k] if k < len(isteps) else "missing"
             if mc != ir:
+                if (mc == "crash" and ir == "invalid" and not I.VARIANT[0][1] and c[0] == "b"
+                        and case["edits"][k][0] == "move" and not mpre[k]):
+                    # negative-index garbage paths (move outside move_pre) are modelled as Crash; the repaired
+                    # block branch of _forward_move turns such end points into InvalidCursorError
+                    stats["tolerated_garbage"] = stats.get("tolerated_garbage", 0) + 1
+                    break
                 div.append({"what": "forwarding differs at step %d" % k, "cursor": c, "model": mc, "impl": ir})
                 break
             if ir in ("invalid", "crash"):
